@@ -497,7 +497,7 @@ func TestC01(t *testing.T) {
 	}
 	rng := NewRng(seed*1000003 + uint64(shard))
 	for i := 0; i < n; i++ {
-		opts := histOpts{globalRules: rng.Chance(20), fileRules: rng.Chance(30), delegation: rng.Chance(30)}
+		opts := histOpts{globalRules: rng.Chance(30), fileRules: rng.Chance(35), delegation: rng.Chance(30)}
 		nEvents := 3 + rng.Intn(10)
 		if envStr("VERIF_TIER", "quick") == "thorough" && rng.Chance(20) {
 			nEvents = 12 + rng.Intn(30)
